@@ -316,7 +316,7 @@ where
         match self {
             Separation::Filtrate(filtrate) => {
                 cancellation.cancel_walk_tree();
-                Separation::from_inner_residue(TreeResidue::Node(f(filtrate.into_inner())))
+                Separation::from_inner_residue(TreeResidue::Tree(f(filtrate.into_inner())))
             },
             Separation::Residue(residue) => match residue.into_inner() {
                 TreeResidue::Node(residue) => {
